@@ -216,7 +216,7 @@ def make_lf(spec, tree_value=None, lengths=None, aln=None):
     tree = make_tree(nwk)
     kw = {}
     if bins:
-        kw["bins"] = bins["n"]
+        kw["bins"] = bins.get("names") or bins["n"]  # the user may name the rate classes
     if spec.get("expm"):
         kw["expm"] = spec["expm"]
     if spec.get("opt_mprobs"):
@@ -248,8 +248,12 @@ def make_lf(spec, tree_value=None, lengths=None, aln=None):
                 lf.set_param_rule("rate_shape", value=float(bins["shape"]), is_constant=True)
             elif bins["mode"] == "rates":
                 for i, r in enumerate(bins["rates"]):
-                    lf.set_param_rule("rate", bin=f"bin{i}", value=float(r), is_constant=True)
+                    lf.set_param_rule("rate", bin=bin_name(bins, i), value=float(r), is_constant=True)
     return lf
+
+
+def bin_name(bins, i):
+    return (bins.get("names") or [f"bin{k}" for k in range(bins["n"])])[i]
 
 
 def to_tree(v):
@@ -414,7 +418,7 @@ def check_config(spec, acc, report=True):
                 ps[e] = numpy.array(discrete[e], float)
                 continue
             Q, _ = oracle_Q(spec, e, factors)
-            bkw = {"bin": f"bin{bi}"} if len(binset) > 1 else {}
+            bkw = {"bin": bin_name(spec.get("bins"), bi)} if len(binset) > 1 else {}
             # layer 1: rate matrix
             if not solved:
                 try:
@@ -567,6 +571,9 @@ def bin_setups(terms, tier):
         for shape in (0.2, 1.0, 5.0):
             for bp in (None, [0.1, 0.9] if n == 2 else [0.1, 0.2, 0.3, 0.4]):
                 out.append({"mode": "gamma", "n": n, "shape": shape, "bprobs": bp})
+    # rate classes named by the user, in an order that is not the sorted one
+    out.append({"mode": "gamma", "n": 2, "shape": 1.0, "bprobs": [0.3, 0.7], "names": ["slow", "fast"]})
+    out.append({"mode": "rates", "n": 3, "rates": [0.2, 1.8, 3.5], "bprobs": [0.2, 0.3, 0.5], "names": ["b", "c", "a"]})
     sizes = (2, 3) if tier == "quick" else (2, 3, 4)
     for n in sizes:
         for bp in (None, [0.3, 0.7] if n == 2 else ([0.2, 0.3, 0.5] if n == 3 else [0.1, 0.2, 0.3, 0.4])):
